@@ -34,6 +34,8 @@ BASES = {
                   '  </tb>', '  ka 1', '</ta>', ['km ', V('v2')]]),
     'B4': ('S2', [['<ta ', W('n1'), '>'], '  ka 1', '</ta>', ['<ta ', W('n2'), '>'], ['  ka ', V('v1')],
                   '</ta>']),
+    'B5': ('S2', [['<ta ', W('n1'), '>'], '  ka 1', ['  ', W('k1'), ' ', V('v1')], '</ta>',
+                  ['<ta ', W('n2'), '>'], '  ka 1', '</ta>']),
 }
 
 # (base, [(file to cut from, i, j, new file name relative to BASE)], balanced?)
@@ -65,8 +67,84 @@ CUTS_T = CUTS_Q + [
     ('B2', [(MAINNAME, 3, 4, 'x/inc.conf')], True),
     ('B3', [(MAINNAME, 5, 6, 'x/inc.conf'), (MAINNAME, 6, 7, 'x/tail.conf')], True),
     ('B3', [(MAINNAME, 4, 7, 'x/inc.conf')], False),
-    ('B4', [(MAINNAME, 1, 2, 'x/k.conf'), (MAINNAME, 4, 5, 'x/k.conf')], True),
+    ('B5', [(MAINNAME, 1, 2, 'x/k.conf'), (MAINNAME, 5, 6, 'x/k.conf')], True),
 ]
+
+
+def _lit(line):
+    if isinstance(line, str):
+        return line.strip()
+    return ''.join(p if isinstance(p, str) else 'xx' for p in line).strip()
+
+
+def _delta(line):
+    t = _lit(line)
+    if t.startswith('</'):
+        return -1
+    if t.startswith('<') and not t.endswith('/>'):
+        return 1
+    return 0
+
+
+def ranges(lines):
+    """-> (balanced [i, j) ranges, unbalanced ones): a range is balanced when the nesting depth
+    never drops below its starting depth and ends where it started"""
+    bal, unbal = [], []
+    n = len(lines)
+    for i in range(n):
+        d = 0
+        low = 0
+        for j in range(i + 1, n + 1):
+            d += _delta(lines[j - 1])
+            low = min(low, d)
+            (bal if (d == 0 and low == 0) else unbal).append((i, j))
+    return bal, unbal
+
+
+PLACES = ['x/f%d.conf', 'x/sub/f%d.conf', 'f%d.conf', 'x/sub/deep/f%d.conf']
+
+
+def generated_cuts(tier):
+    """every single balanced cut of every base in every placement; pairs of disjoint cuts and
+    cuts nested inside a fragment (placement rotating); a sample of unbalanced cuts"""
+    out = []
+    for base in sorted(BASES):
+        lines = BASES[base][1]
+        bal, unbal = ranges(lines)
+        for k, (i, j) in enumerate(bal):
+            for pl in (PLACES[:3] if tier == 'quick' else PLACES):
+                out.append((base, [(MAINNAME, i, j, pl % 0)], True))
+        step = 2 if tier == 'quick' else 1
+        for k, (i, j) in enumerate(unbal[::step]):
+            out.append((base, [(MAINNAME, i, j, PLACES[k % 3] % 0)], False))
+        # nested: cut [i2, j2) out of the fragment produced by the first cut
+        n = 0
+        for (i, j) in bal:
+            if j - i < 2:
+                continue
+            frag = lines[i:j]
+            fb, _ = ranges(frag)
+            for (i2, j2) in fb:
+                if (i2, j2) == (0, j - i):
+                    continue
+                n += 1
+                if tier == 'quick' and n % 3:
+                    continue
+                f1 = PLACES[n % 4] % 0
+                out.append((base, [(MAINNAME, i, j, f1), (f1, i2, j2, PLACES[(n + 1) % 4] % 1)], True))
+        # disjoint pairs (second range given in the coordinates after the first cut)
+        n = 0
+        for a, (i, j) in enumerate(bal):
+            for (i2, j2) in bal[a + 1:]:
+                if i2 < j:
+                    continue
+                n += 1
+                if tier == 'quick' and n % 4:
+                    continue
+                sh = (j - i) - 1
+                out.append((base, [(MAINNAME, i, j, PLACES[n % 4] % 0),
+                                   (MAINNAME, i2 - sh, j2 - sh, PLACES[(n + 2) % 4] % 1)], True))
+    return out
 
 
 def _rel(from_file, to_file):
@@ -117,16 +195,25 @@ class C06(P.TextMixin, Harness):
 
     @property
     def bounds(self):
-        return {'quick': {'cuts': len(CUTS_Q)}, 'thorough': {'cuts': len(CUTS_T)}}
+        return {t: {'bases': sorted(BASES), 'units': len(self.units(t)),
+                    'cuts': 'hand-written list + every single balanced range x placements (same dir, '
+                            'sub-directory, parent, two levels down) + nested and disjoint pairs + unbalanced ranges'}
+                for t in ('quick', 'thorough')}
 
     def budget(self, tier):
         return 170 if tier == 'quick' else 1200
 
     def units(self, tier):
         us = []
-        for base, cuts, bal in (CUTS_Q if tier == 'quick' else CUTS_T):
+        seen = set()
+        import json
+        for base, cuts, bal in (CUTS_Q if tier == 'quick' else CUTS_T) + generated_cuts(tier):
             sid, files = make_files(base, cuts)
-            us.append({'schema': sid, 'files': files, 'balanced': bal, 'base': base})
+            u = {'schema': sid, 'files': files, 'balanced': bal, 'base': base}
+            k = json.dumps(u, sort_keys=True)
+            if k not in seen:
+                seen.add(k)
+                us.append(u)
         return us
 
     def inputs(self, eng, unit):
